@@ -429,6 +429,10 @@ func (s *runtimeState) resolveIngress(r *http.Request, requestPath string) (stri
 	}
 
 	for _, rt := range s.routes {
+		// Outbound and internal routes are never served by the ingress listener.
+		if rt.ChannelType == config.ChannelOutbound || rt.ChannelType == config.ChannelInternal {
+			continue
+		}
 		if !router.MatchPath(requestPath, rt.Path) {
 			continue
 		}
@@ -468,6 +472,9 @@ func (s *runtimeState) allowedMethodsFor(r *http.Request, requestPath string) []
 	var out []string
 
 	for _, rt := range s.routes {
+		if rt.ChannelType == config.ChannelOutbound || rt.ChannelType == config.ChannelInternal {
+			continue
+		}
 		if !router.MatchPath(requestPath, rt.Path) {
 			continue
 		}
